@@ -17,7 +17,8 @@ func init() {
 			"(E) codec agreement of WebsocketNetConn: Write sends exactly one TextMessage carrying hex.EncodeToString of its own argument and reports len(argument); Read accepts exactly that message type (partial evaluation on the type), decodes with hex.DecodeString of the payload it just read, refills its buffer only when it is empty, hands out bytes from the front and keeps the remainder (re-slice from the consumed count), returning that count; " +
 			"(P) every function that bridges two connections starts exactly two copy goroutines io.Copy(a,b) / io.Copy(b,a) over the same two values and waits for exactly two Done()s; " +
 			"(H) the bridge handler passes anything that is not a websocket upgrade for the streaming path to the pass-through handler with its own (w, r) and does not upgrade it; the frontend dials a path ending in the same StreamingPath constant. " +
-			"(V) goroutines started per accepted connection capture no variable that lives outside the accept loop and is reassigned by it; the bridge backend's pass-through proxy is the stock NewSingleHostReverseProxy with only FlushInterval/Transport set; (M) no pooled buffers.",
+			"(V) goroutines started per accepted connection capture no variable that lives outside the accept loop and is reassigned by it; the bridge backend's pass-through proxy is the stock NewSingleHostReverseProxy with only FlushInterval/Transport set; (M) no pooled buffers. " +
+			"Data frames are written only from WebsocketNetConn.Write (gorilla's single-writer rule); DialWebsocket uses its context for the dial only.",
 		Assumptions: []string{"gorilla/websocket delivers text messages whole and in order; encoding/hex round-trips; io.Copy writes everything it reads"},
 		Run:         runC15,
 	})
@@ -27,7 +28,8 @@ func init() {
 		Explanation: "'Within bounded time' is not decided. Decided is the structural obstacle the property names: (K) in every function that bridges two connections with two copy goroutines, each goroutine — when its io.Copy returns, before it reports Done and independently of its sibling — closes the connections of the pair (directly or through a closure that closes them), so a close by one peer ends the other direction and is shown to the other peer; " +
 			"(D) every connection acquired in a bridging function (Upgrade, Dial, Accept, DialWebsocket) has a deferred Close that follows its successful acquisition. " +
 			"Not decided: delivery of in-flight data before the close, timing. " +
-			"(A) no SetLinger(≥0) on any bridge connection (an abortive close discards queued data and resets the peer); a net.Conn wrapper's Close either is the embedded connection's or takes no lock that another method holds across blocking network I/O.",
+			"(A) no SetLinger(≥0) on any bridge connection (an abortive close discards queued data and resets the peer); a net.Conn wrapper's Close either is the embedded connection's or takes no lock that another method holds across blocking network I/O. " +
+			"No raw descriptor access (File/Fd/SyscallConn) on bridge sockets; after an acquisition no path returns before its Close is deferred; DialWebsocket does not retain its context.",
 		Assumptions: []string{"closing a net.Conn / websocket.Conn unblocks a Read pending on it and makes the peer observe end-of-stream"},
 		Run:         runC16,
 	})
@@ -49,7 +51,7 @@ func bridgeSites(p *Prog) []*bridgeSite {
 			continue
 		}
 		bs := &bridgeSite{Fn: fn}
-		for _, cl := range fn.AnonFuncs {
+		for _, cl := range DirectClosures(fn) {
 			cp := Calls(cl, "io.Copy", "io.CopyBuffer")
 			if len(cp) == 1 && goBodyOnce(cl) {
 				bs.Copies = append(bs.Copies, cp[0])
@@ -181,7 +183,9 @@ func runC15(c *Ctx) {
 		c.Check("C15.E", "Read:keeps-remainder", p, rd.Pos(), okRem, "after handing out count bytes the buffer is re-sliced from count and count is returned", "the bytes not yet handed out are not kept as bufferedMsg[count:] with count being the returned length: bytes are lost or duplicated when the reader's buffer is smaller than a message")
 	}
 
-	c.Rule("C15.V", "each bridged connection has its own variables; the pass-through proxy is the stock single-host proxy", 4)
+	c.Rule("C15.V", "each bridged connection has its own variables; the pass-through proxy is the stock single-host proxy; one websocket writer; the dial context is not retained", 6)
+	ruleSingleWebsocketWriter(c, p, "C15.V")
+	ruleDialContextNotRetained(c, p, "C15.V")
 	ruleLoopSharedCapture(c, p, "C15.V", 1, "utils/tcpbridge/tcp-bridge-frontend", "utils/tcpbridge/tcp-bridge-backend", "utils/tcpbridge/connection")
 	rulePlainSingleHostProxy(c, p, "C15.V", "utils/tcpbridge/tcp-bridge-backend.main", map[string]string{"FlushInterval": "streaming", "Transport": "h2c transport choice"})
 	c.Rule("C15.M", "decoded bytes live in connection-owned buffers", 1)
@@ -255,7 +259,7 @@ func runC15(c *Ctx) {
 	// ---- C15.H
 	if h := c.need(p, "C15.H", "utils/tcpbridge/connection.Handler"); h != nil {
 		var hf *ssa.Function
-		for _, cl := range h.AnonFuncs {
+		for _, cl := range DirectClosures(h) {
 			if len(Calls(cl, "github.com/gorilla/websocket.IsWebSocketUpgrade")) == 1 {
 				hf = cl
 			}
@@ -267,7 +271,11 @@ func runC15(c *Ctx) {
 			var pass ssa.Instruction
 			for _, call := range Calls(hf, "(net/http.Handler).ServeHTTP") {
 				a := Args(CallOf(call))
-				if PathOf(a[0]) == P(h, 1) && PathOf(a[1]) == P(hf, 0) && PathOf(a[2]) == P(hf, 1) {
+				off := 0
+				if hf.Signature.Recv() != nil {
+					off = 1 // the handler literal became a method of a small type: (recv, w, r)
+				}
+				if PathOf(a[0]) == P(h, 1) && PathOf(a[1]) == P(hf, off) && PathOf(a[2]) == P(hf, off+1) {
 					pass = call
 				}
 			}
@@ -394,8 +402,10 @@ func runC16(c *Ctx) {
 	p := c.Progs["mod"]
 	c.Rule("C16.K", "completion of either copy direction closes the pair", 4)
 	c.Rule("C16.D", "every acquired connection is released on exit", 4)
-	c.Rule("C16.A", "closing is orderly and cannot be blocked: no abortive-close socket option, Close never waits for a lock held across blocking I/O", 2)
+	c.Rule("C16.A", "closing is orderly and cannot be blocked: no abortive-close socket option, Close never waits for a lock held across blocking I/O; no raw descriptor access; dial context not retained", 4)
 	c16Orderly(c, p)
+	ruleNoRawDescriptor(c, p, "C16.A")
+	ruleDialContextNotRetained(c, p, "C16.A")
 	sites := bridgeSites(p)
 	if len(sites) < 2 {
 		c.Bad("C16.K", "bridging-functions", p, 0, fmt.Sprintf("found %d bridging functions (2 confirmed by hand)", len(sites)))
@@ -433,6 +443,12 @@ func runC16(c *Ctx) {
 		if par := bs.Fn.Parent(); par != nil {
 			fns = append(fns, par)
 		}
+		if info := helperOf(bs.Fn); info != nil {
+			// the named form of the per-connection goroutine: its "parent" is where it is started
+			for _, s := range info.sites {
+				fns = append(fns, s.Parent())
+			}
+		}
 		for _, fn := range fns {
 			for _, call := range Calls(fn, acq...) {
 				n++
@@ -449,6 +465,12 @@ func runC16(c *Ctx) {
 							ok = true
 						}
 					})
+				}
+				if cv, isV := call.(*ssa.Call); isV && cv.Parent() == bs.Fn {
+					ruleAcquiredThenDeferred(c, p, "C16.D", bs.Fn, call, func(i ssa.Instruction) bool {
+						_, isDefer := i.(*ssa.Defer)
+						return isDefer && closesConn(i, conn, 0)
+					}, fmt.Sprintf("%s:%s-deferred-on-every-path", FuncName(bs.Fn), shortCallee(CalleeName(CallOf(call)))))
 				}
 				key := fmt.Sprintf("%s:%s-released", FuncName(bs.Fn), shortCallee(CalleeName(CallOf(call))))
 				c.Check("C16.D", key, p, call.Pos(), ok, "a deferred Close releases the connection when the bridging function exits", "the connection obtained from "+CalleeName(CallOf(call))+" has no deferred Close in the bridging function: it leaks when the bridge ends")
